@@ -35,7 +35,9 @@ MANIFEST = dict(
          'compiler and interpreter runs are implementation-side evidence and the source of replayable violations, not covered by '
          'a theorem. Trusted: Coq kernel; translator gen_c06.py; stropping model of C09 (imported); extraction + OCaml driver; '
          'gcc/g++ 12, CPython 3.12 + NumPy as oracles. cetl++14-17 is generation-only (CETL submodule empty offline). A header '
-         'that hits a listed known finding is only checked up to that finding (remedy flags or first diagnostic).',
+         'that hits a listed known finding is only checked up to that finding (remedy flags or first diagnostic); findings are CLASSES with a '
+         'trigger predicate over the DSDL dump / the real headers of the translation unit, probed by a witness at run time. The '
+         'property\'s own exclusion (distinct names folded by the one-way stropping) is recognised from the real generator\'s filter_id.',
     design='§5 C06')
 
 STD_HEADERS_C = {'<stdlib.h>', '<stdint.h>', '<stdbool.h>', '<string.h>', '<assert.h>', '<float.h>', '<math.h>', '<stddef.h>'}
@@ -808,8 +810,19 @@ def main(chk: core.Check, replay: typing.Optional[str] = None) -> int:
     wd = core.scratch('c06-')
     outs: typing.List[dict] = []
     batch = 8
+    n_wit = 0 if replay else len(dg.witness_corpus())
+    # quick tier: the minimised class witnesses (cases 2 .. 2+n_wit-1) are generated for the configurations their classes live in only
+    wit_cfgs = [c for c in configs if cfg_key(c) in ('c/-/ser', 'cpp/c++14/ser', 'cpp/c++17/ser', 'cpp/c++17-pmr/ser', 'cpp/c++17/pod', 'py/-/ser')] \
+        if quick else configs
     for b in range(0, len(cases), batch):
-        outs += run_impl(cases[b:b + batch], configs, wd, index_base=b, jobs=6)
+        chunk = list(range(b, min(b + batch, len(cases))))
+        for sel, cf in (([i for i in chunk if not (2 <= i < 2 + n_wit)], configs), ([i for i in chunk if 2 <= i < 2 + n_wit], wit_cfgs)):
+            if sel:
+                res_sel = run_impl([cases[i] for i in sel], cf, wd, index_base=b * 2 + (0 if cf is configs else batch), jobs=6)
+                for i, r_ in zip(sel, res_sel):
+                    while len(outs) <= i:
+                        outs.append(None)
+                    outs[i] = r_
 
     stats: typing.Dict[str, typing.Any] = {'cases': len(cases), 'valid': 0, 'rejected_by_pydsdl': 0, 'types': 0, 'nnvg_runs': 0, 'compile_jobs': 0,
                                            'known_finding_instances': {}, 'model_files_compared': 0, 'kinds': {'S': 0, 'U': 0, 'V': 0},
